@@ -142,6 +142,7 @@ func (t *terminal) ptyReadOne(gr *GraphemeReader) error {
 
 	case 27: // ESC ^[ Escape Character
 
+		gr.takeErr()
 		t.WithLock(func() {
 			if *debugCmd || *debugTodo {
 				var cmdBytes bytes.Buffer
@@ -158,6 +159,10 @@ func (t *terminal) ptyReadOne(gr *GraphemeReader) error {
 				_ = t.handleCommand(gr)
 			}
 		})
+		// the input failed inside the sequence: end the loop, as for any other read error
+		if err := gr.takeErr(); err != nil {
+			return err
+		}
 
 	case 127: // DEL  Delete Character (treat as backspace)
 		t.WithLock(func() {
